@@ -91,6 +91,67 @@ fn tables_json(tabs: &[Tab]) -> String {
         t.rows.iter().map(|r| format!("[{}]", r.iter().map(v_json).collect::<Vec<_>>().join(","))).collect::<Vec<_>>().join(","))).collect::<Vec<_>>().join(","))
 }
 
+fn i(z: i64) -> V { V::I(z) }
+fn st(x: &str) -> V { V::S(x.to_string()) }
+fn bx(e: E) -> Box<E> { Box::new(e) }
+fn c0(k: usize) -> E { E::Col(0, k) }
+/// Fixed witness corpus: one query per listed known finding of property C01 (known_findings.json), run on every
+/// invocation before the generated cases (ids 1000000 + k, stream "witness:<KF>"): (name, tables, query, target_partitions, batch_size)
+fn witnesses() -> Vec<(&'static str, Vec<Tab>, Q, usize, usize)> {
+    let n = V::Null;
+    let t_kf1 = Tab { types: vec![Ty::Int, Ty::Str, Ty::Bool], parts: 1, rows: vec![
+        vec![i(2), st(""), n.clone()], vec![i(2), n.clone(), V::B(true)], vec![n.clone(), n.clone(), n.clone()],
+        vec![i(3), n.clone(), V::B(true)], vec![i(2), st("b"), V::B(true)]] };
+    // SELECT * FROM t0 a WHERE (a.c1 NOT IN (SELECT b.c1 FROM t0 b)) OR FALSE          SQL: no row
+    let kf1 = Q::Filter(E::Or(bx(E::InSub(true, bx(c0(1)), Box::new(Q::Project(vec![c0(1)], Box::new(Q::Table(0)))))), bx(E::Lit(V::B(false), Ty::Bool))), Box::new(Q::Table(0)));
+    let t_l = Tab { types: vec![Ty::Int, Ty::Int], parts: 1, rows: vec![vec![i(2), i(0)], vec![i(2), i(1)]] };
+    let t_r = Tab { types: vec![Ty::Int, Ty::Int], parts: 1, rows: vec![vec![i(3), i(0)], vec![n.clone(), i(0)], vec![i(2), i(0)], vec![i(-1), i(0)]] };
+    // (SELECT c0 FROM t0) EXCEPT ALL (SELECT c0 FROM t1)                                 SQL: {2}
+    let kf2 = Q::SetOp(SetOp::Except, true, Box::new(Q::Project(vec![c0(0)], Box::new(Q::Table(0)))), Box::new(Q::Project(vec![c0(0)], Box::new(Q::Table(1)))));
+    // SELECT * FROM t0 a WHERE CAST(NULL AS BIGINT) NOT IN (SELECT 1 FROM t1 b)          SQL: no row
+    let kf3 = Q::Filter(E::InSub(true, bx(E::Lit(V::Null, Ty::Int)), Box::new(Q::Project(vec![E::Lit(i(1), Ty::Int)], Box::new(Q::Table(1))))), Box::new(Q::Table(0)));
+    let t_kf4 = Tab { types: vec![Ty::Int, Ty::Int], parts: 3, rows: vec![
+        vec![i(2), n.clone()], vec![i(1), i(3)], vec![i(1), i(1)], vec![i(2), i(1)], vec![i(2), i(2)], vec![i(2), i(1)], vec![i(-1), n.clone()], vec![i(0), i(1)]] };
+    // SELECT b.c0 FROM t0 a LEFT JOIN t0 b ON a.c1 = b.c1 AND b.c0 = 0 ORDER BY b.c0 ASC NULLS FIRST      SQL: NULLs first
+    let on4 = E::And(bx(E::Cmp("=", bx(c0(1)), bx(c0(3)))), bx(E::Cmp("=", bx(c0(2)), bx(E::Lit(i(0), Ty::Int)))));
+    let kf4 = Q::Sort(vec![(c0(0), false, true)], Box::new(Q::Project(vec![c0(2)], Box::new(Q::Join(JK::Left, on4, Box::new(Q::Table(0)), Box::new(Q::Table(0)))))));
+    let t5a = Tab { types: vec![Ty::Int, Ty::Int, Ty::Str], parts: 3, rows: vec![
+        vec![i(2), i(-1), st("a")], vec![i(2), i(2), st("")], vec![i(2), i(1), n.clone()], vec![n.clone(), i(1), st("b")], vec![i(-1), i(2), n.clone()], vec![i(1), n.clone(), st("a")]] };
+    let t5b = Tab { types: vec![Ty::Int, Ty::Int, Ty::Str], parts: 1, rows: vec![
+        vec![n.clone(), i(3), st("c")], vec![n.clone(), i(-1), st("a")], vec![n.clone(), i(-1), n.clone()], vec![n.clone(), i(1), st("")]] };
+    // SELECT b.c2 FROM t1 a RIGHT JOIN t0 b ON a.c0 = b.c1 WHERE (b.c2 IS DISTINCT FROM 'a') AND (a.c1 IS NOT DISTINCT FROM b.c1)   SQL: no row
+    let p5 = E::And(bx(E::Distinct(false, bx(c0(5)), bx(E::Lit(st("a"), Ty::Str)))), bx(E::Distinct(true, bx(c0(1)), bx(c0(4)))));
+    let kf5 = Q::Project(vec![c0(5)], Box::new(Q::Filter(p5, Box::new(Q::Join(JK::Right, E::Cmp("=", bx(c0(0)), bx(c0(4))), Box::new(Q::Table(1)), Box::new(Q::Table(0)))))));
+    vec![
+        ("KF1", vec![t_kf1.clone()], kf1, 1, 8192),
+        ("KF2", vec![t_l.clone(), t_r.clone()], kf2, 2, 8192),
+        ("KF3", vec![t_kf1, t_r], kf3, 2, 8192),
+        ("KF4", vec![t_kf4], kf4, 1, 3),
+        ("KF5", vec![t5a, t5b], kf5, 1, 8192),
+    ]
+}
+
+fn run_case(rt: &tokio::runtime::Runtime, id: u64, stream: &str, tabs: &[Tab], q: &Q, tp: usize, bs: usize, probe: &str, explain: bool) {
+    let widths: Vec<usize> = tabs.iter().map(|t| t.types.len()).collect();
+    let sql = if probe.is_empty() { to_sql(q, &widths) } else { probe.to_string() };
+    let qj = q_json(q, &widths);
+    let res = catch_unwind(AssertUnwindSafe(|| {
+        let ctx = SessionContext::new_with_config(SessionConfig::new().with_target_partitions(tp).with_batch_size(bs));
+        for (i, t) in tabs.iter().enumerate() { register(&ctx, i, t); }
+        rt.block_on(exec(&ctx, &sql, explain))
+    }));
+    let (out, ok) = match res {
+        Ok(Ok(rows)) => (format!("{{\"rows\":{rows}}}"), true),
+        Ok(Err(e)) => (format!("{{\"err\":{}}}", json_str(&e)), true),
+        Err(p) => {
+            let msg = p.downcast_ref::<String>().cloned().or_else(|| p.downcast_ref::<&str>().map(|s| s.to_string())).unwrap_or_default();
+            (format!("{{\"err\":{}}}", json_str(&format!("panic: {msg}"))), false)
+        }
+    };
+    println!("{{\"id\":{id},\"stream\":\"{stream}\",\"tp\":{tp},\"bs\":{bs},\"tables\":{},\"q\":{qj},\"sql\":{},\"out\":{out},\"ok\":{ok}}}",
+        tables_json(tabs), json_str(&sql));
+}
+
 fn main() {
     let args: Vec<String> = std::env::args().collect();
     let seed: u64 = arg(&args, "--seed", "1").parse().unwrap();
@@ -99,6 +160,11 @@ fn main() {
     let explain = args.iter().any(|a| a == "--explain");
     let probe = arg(&args, "--probe", "");
     let rt = tokio::runtime::Builder::new_multi_thread().worker_threads(2).enable_all().build().unwrap();
+    for (k, (name, tabs, q, tp, bs)) in witnesses().into_iter().enumerate() {
+        let id = 1_000_000 + k as u64;
+        if only >= 0 && id as i64 != only { continue; }
+        run_case(&rt, id, &format!("witness:{name}"), &tabs, &q, tp, bs, &probe, explain);
+    }
     let mut rng = Rng::new(seed);
     for id in 0..n {
         let stream = STREAMS[(id % STREAMS.len() as u64) as usize];
@@ -107,22 +173,7 @@ fn main() {
         let bs = *rng.pick(&[8192usize, 8192, 2, 3]);
         let (q, widths) = { let mut g = Gen { rng: &mut rng, tabs: tabs.clone() }; let q = g.query(stream); (q, g.tab_widths()) };
         if only >= 0 && id as i64 != only { continue; }
-        let sql = if probe.is_empty() { to_sql(&q, &widths) } else { probe.clone() };
-        let qj = q_json(&q, &widths);
-        let res = catch_unwind(AssertUnwindSafe(|| {
-            let ctx = SessionContext::new_with_config(SessionConfig::new().with_target_partitions(tp).with_batch_size(bs));
-            for (i, t) in tabs.iter().enumerate() { register(&ctx, i, t); }
-            rt.block_on(exec(&ctx, &sql, explain))
-        }));
-        let (out, ok) = match res {
-            Ok(Ok(rows)) => (format!("{{\"rows\":{rows}}}"), true),
-            Ok(Err(e)) => (format!("{{\"err\":{}}}", json_str(&e)), true),
-            Err(p) => {
-                let msg = p.downcast_ref::<String>().cloned().or_else(|| p.downcast_ref::<&str>().map(|s| s.to_string())).unwrap_or_default();
-                (format!("{{\"err\":{}}}", json_str(&format!("panic: {msg}"))), false)
-            }
-        };
-        println!("{{\"id\":{id},\"stream\":\"{stream}\",\"tp\":{tp},\"bs\":{bs},\"tables\":{},\"q\":{qj},\"sql\":{},\"out\":{out},\"ok\":{ok}}}",
-            tables_json(&tabs), json_str(&sql));
+        let _ = widths;
+        run_case(&rt, id, stream, &tabs, &q, tp, bs, &probe, explain);
     }
 }
